@@ -97,11 +97,14 @@ normalize(struct VideoFrame* acc, float inverse_norm)
 static int
 process_data(struct video_filter_s* self,
              struct VideoFrame** accumulator,
-             uint64_t* frame_count)
+             uint64_t* frame_count,
+             size_t* nbytes_read)
 {
     struct VideoFrame* in = 0;
+    *nbytes_read = 0;
     {
         struct slice slice = channel_read_map(&self->in, &self->reader);
+        *nbytes_read = slice_size_bytes(&slice);
         struct frame_iterator it = frame_iterator_init(&slice);
         while ((in = frame_iterator_next(&it))) {
             if (!*accumulator) {
@@ -177,12 +180,18 @@ video_filter_thread(struct video_filter_s* self)
     LOG("[stream %d] PROCESSING: Entering frame processing thread",
         self->stream_id);
     struct throttler throttler = throttler_init(10e-3f);
+    size_t nbytes_read = 0;
     while (!self->is_stopping) {
-        CHECK(process_data(self, &accumulator, &frame_count));
+        CHECK(process_data(self, &accumulator, &frame_count, &nbytes_read));
         throttler_wait(&throttler);
     }
     LOG("[stream: %d] PROCESSING: Flush", self->stream_id);
-    CHECK(process_data(self, &accumulator, &frame_count));
+    // One map does not necessarily return everything that is queued (the
+    // queue hands out the rest of the previous lap and the start of the
+    // current one separately): read until nothing is left.
+    do {
+        CHECK(process_data(self, &accumulator, &frame_count, &nbytes_read));
+    } while (nbytes_read);
 Finalize:
     if (accumulator)
         channel_write_unmap(self->out);
